@@ -337,6 +337,28 @@ func TestVerifC45(t *testing.T) {
 					if werr != nil || !bytes.Equal(fb.Bytes(), nd.content) {
 						r.Fail("content", "write-node-wrong", "WriteNode of %s wrote %d bytes (err %v), the file has %d", nd.name, fb.Len(), werr, len(nd.content))
 					}
+					// the same with a context that is cancelled somewhere in the middle: an error, or the complete file
+					if len(nd.blobs) > 1 && !r.Failed() {
+						var cb bytes.Buffer
+						var cerr error
+						cctx, cancel := context.WithCancel(context.Background())
+						n := 1 + tp.Choose(2*len(nd.blobs)+4)
+						s.Go("canceller", nil, func() {
+							for i := 0; i < n; i++ {
+								simrt.Park("ctl", "before-cancel", nil)
+							}
+							s.Count("fault:context-cancelled")
+							cancel()
+						})
+						s.Do("write-node-cancelled", nil, func() {
+							d := New("tar", ld, &cb)
+							cerr = d.WriteNode(cctx, &data.Node{Name: nd.name, Type: nd.typ, Content: nd.blobs, Size: uint64(len(nd.content))})
+						})
+						cancel()
+						if cerr == nil && !bytes.Equal(cb.Bytes(), nd.content) {
+							r.Fail("content", "cancelled-dump-truncated-without-error", "the context was cancelled while %s was dumped: WriteNode returned nil after writing %d of %d bytes", nd.name, cb.Len(), len(nd.content))
+						}
+					}
 					break
 				}
 			}
